@@ -33,6 +33,7 @@ import threading
 from inspect import isgenerator
 
 from spyne import Address, File, Fault
+from spyne.util import six
 from spyne.util.six.moves.http_cookies import SimpleCookie
 from spyne.util.six.moves.urllib.parse import unquote, quote
 
@@ -165,6 +166,18 @@ def _rest_of_user_generator(first_obj, g, errors):
     yield first_obj
     try:
         for obj in g:
+            yield obj
+    except Exception as e:
+        errors.append(e)
+        raise
+
+
+def _rest_of_user_iterator(it, errors):
+    """The same for an iterator object that is not a generator: it has not been
+    started, so nothing needs to be put back."""
+
+    try:
+        for obj in it:
             yield obj
     except Exception as e:
         errors.append(e)
@@ -532,6 +545,15 @@ class WsgiApplication(HttpBase):
             else:
                 p_ctx.out_object = ( _rest_of_user_generator(first_obj, g,
                                                                  user_errors), )
+
+        elif len(p_ctx.out_object) == 1 and g is not None \
+                and not isinstance(g, (list, tuple, dict, bytes, six.text_type)) \
+                and not hasattr(g, 'read') \
+                and getattr(g, '__iter__', None) is not None \
+                and (hasattr(g, '__next__') or hasattr(g, 'next')):
+            # an iterator object that user code wrote: what it raises while the
+            # response is written is the user's as well.
+            p_ctx.out_object = ( _rest_of_user_iterator(g, user_errors), )
 
         if p_ctx.transport.resp_code is None:
             p_ctx.transport.resp_code = HTTP_200
